@@ -16,7 +16,7 @@ OUT=/tmp/mutout-$$; mkdir -p $OUT
 trap 'git -C /repo worktree remove --force "$W" >/dev/null 2>&1; rm -rf $OUT' EXIT
 demo_run() { # runs the demonstration in $W; echoes PASS/FAIL
   if ls "$D"/*_test.go >/dev/null 2>&1; then
-    cp "$D"/*_test.go "$W"/ ; (cd "$W" && go test -tags "${DEMOTAGS:-}" -vet=off -count=1 -run "${DEMORUN:-Demo|Seeded|Mutant|Mut}" . >/tmp/mutdemo.$$ 2>&1); rc=$?
+    cp "$D"/*_test.go "$W"/ ; (cd "$W" && go test ${DEMORACE:+-race} -tags "${DEMOTAGS:-}" -vet=off -count=1 -run "${DEMORUN:-Demo|Seeded|Mutant|Mut}" . >/tmp/mutdemo.$$ 2>&1); rc=$?
     for f in "$D"/*_test.go; do rm -f "$W/$(basename $f)"; done
   elif [ -d "$D/demo" ]; then
     mkdir -p "$W/_demo" && cp -r "$D"/demo/* "$W/_demo/" && (cd "$W" && go run -tags "${DEMOTAGS:-}" ./_demo >/tmp/mutdemo.$$ 2>&1); rc=$?; rm -rf "$W/_demo"
